@@ -415,6 +415,9 @@ func (h *Hist) slot() {
 	if h.PermNodes > 0 && len(h.W.ViewNodes) > 1 {
 		k := h.PermNodes % len(h.W.ViewNodes)
 		h.W.ViewNodes = append(append([]*v1.Node(nil), h.W.ViewNodes[k:]...), h.W.ViewNodes[:k]...)
+		if len(h.W.ViewTruth) == len(h.W.ViewNodes) {
+			h.W.ViewTruth = append(append([]*v1.Node(nil), h.W.ViewTruth[k:]...), h.W.ViewTruth[:k]...)
+		}
 	}
 	if h.C != nil {
 		h.scan()
